@@ -53,13 +53,13 @@ CHECKS = {
    text="All ~25k descriptors over boundary-shifting name/value/help pools with <=2 constant and <=2 variable labels are built through Desc::new (constant-label map in every iteration order) and through Opts (every insertion order); id / dim_hash equality must coincide with structural-key equality over all pairs (grouping both ways), rebuilds must agree, also with other descriptors built in between (X, Y, X; X, HUGE, X with keys up to 140 KB; X on a fresh thread); plus descriptors whose neighbouring key fields are one 150-byte text cut at every position.",
    note="pool strings only; genuine 64-bit collisions exempt", ref="6 C15"),
  "C04": dict(engine="enum", technique="bounded-exhaustive enumeration of families/streams/call histories through all three text entry points, read back by an independent 0.0.4 parser",
-   text="Every family of a bounded adversarial generator (4 types x every float class in every float slot x 12 bucket/quantile shapes x label shapes with every string of an escape-heavy pool x timestamps), all pairs/triples of a basis as streams, very large tokens and families at every stream position, gathered registry output and encode-call histories (failing writer at every byte, refused family, repeated encode, mutate-then-re-encode) is encoded by encode / encode_utf8 / encode_to_string: identical bytes, UTF-8, append-only, and the independent parser returns exactly the encoded families.",
+   text="Every family of a bounded adversarial generator (4 types x every float class in every float slot x 12 bucket/quantile shapes x label shapes with every string of an escape-heavy pool x timestamps), all pairs/triples of a basis as streams, very large tokens and families at every stream position, a float sweep (short decimals with their 1-2 ulp neighbours; every binary exponent x 11 mantissa patterns; every power of ten with its neighbours), gathered registry output and encode-call histories (failing writer at every byte, refused family, repeated encode, mutate-then-re-encode) is encoded by encode / encode_utf8 / encode_to_string: identical bytes, UTF-8, append-only, and the independent parser returns exactly the encoded families.",
    note="string/float pools fixed; names valid; UNTYPED refused by the encoder (C17)", ref="6 C04"),
  "C13": dict(engine="enum", technique="bounded-exhaustive enumeration of families/streams/call histories through ProtobufEncoder, decoded by an independent wire decoder driven by proto_model.proto",
    text="The same generator over all five metric types, streams (incl. 64+ KiB families among small ones), a size sweep giving a family every encoded length from 40 to 16500 bytes (thorough also around 2^21), gathered output, refused families at every stream position and encode-call histories (failing writer at every byte offset, mutate through setters / public fields / clone then re-encode): the stream must frame exactly one length-delimited message per family and decode bit-exactly to the encoded families.",
    note="decoder in harness/src/pbwire.rs trusted; schema read from the repo's .proto at run time", ref="6 C13"),
  "C16": dict(engine="enum", technique="bounded-exhaustive enumeration of API scenarios, executed by one program compiled under both feature configurations; transcripts compared byte for byte",
-   text="One scenario program is built twice against /repo (protobuf-backed and --no-default-features plain data model) and run over every scenario of a bounded grammar (collector subsets <=2 (thorough 3) of 13 kinds (incl. a custom collector with hand-built families) x all combinations of 5 update scripts x 5 registry configurations x re-gather after unregister); the bit-exact dumps of gather() and the TextEncoder output must be identical.",
+   text="One scenario program is built twice against /repo (protobuf-backed and --no-default-features plain data model) and run over every scenario of a bounded grammar (collector subsets <=2 (thorough 3) of 15 kinds (incl. custom collectors with hand-built families: mismatching payloads, and samples with identical label sets differing only in set-vs-unset optional fields) x all combinations of 5 update scripts x 5 registry configurations x re-gather after unregister); the bit-exact dumps of gather() and the TextEncoder output must be identical.",
    note="scenario grammar fixed; only API common to both models is used", ref="6 C16"),
  "C20": dict(engine="enum", technique="bounded-exhaustive enumeration over generated programs: every macro arm x trailing comma written out as a call site, compiled against /repo and looped over a finite argument pool, compared with the explicit constructor",
    text="A generated crate (regenerated and rebuilt on every run) contains every arm of labels!/opts!/histogram_opts!/register_*!/register_*_with_registry! with and without trailing comma (114 call sites); each is run over 216 argument cases x 3 target registries: descriptor and buckets equal the explicit constructor's, the updated handle's sample appears in exactly the named registry, a second identical invocation evaluates to Err and leaves the first registration intact, and every macro argument expression is evaluated exactly once.",
